@@ -156,6 +156,11 @@ def run(ctx):
                             ctx.violation("412 answered but the store changed", dict(world=x_hcheck.world_json(world), history=hist[:k + 1]))
                     elif ok:
                         done += 1
+                if im[0] == "CTag" and im[1][0] in ("EtBogus", "EtTrunc") and ok and "v" not in state:
+                    state["v"] = True
+                    ctx.violation("request %d carried out although its If-Match value (%s) is not the current ETag %s" % (
+                        k, "a fragment of it: " + im[1][1] if im[1][0] == "EtTrunc" else "bogus", pre),
+                        dict(world=x_hcheck.world_json(world), history=hist[:k + 1]))
                 if inm and pre is not None and ok and "v" not in state:
                     state["v"] = True
                     ctx.violation("PUT with If-None-Match:* carried out on an existing resource (request %d)" % k,
